@@ -234,6 +234,25 @@ def run(ctx):
                 m.rel,
                 n.lineno,
             )
+    # ---- C05.6 expression de-duplication is scoped to the evaluation environment -------------------
+    # _pending_expr has no context in its key: it is keyed by the parent *object* and the expression hash.  Default arguments of a call are
+    # evaluated under a fresh JobEnv carrying the callee's context; that object identity is what keeps equal default expressions of two calls
+    # with different contexts apart.
+    r6 = ctx.rule("C05.6", "pending expressions are keyed by the parent object itself (a JobEnv is its own scope)", floor=2)
+    ea6 = m.func("Scheduler._evaluate_apply")
+    pvar = "parent_job"
+    subs = [n for n in ast.walk(ea6) if isinstance(n, ast.Subscript) and src(n.value) == "self._pending_expr"]
+    if len(subs) < 2:
+        raise AnalysisError("_evaluate_apply: self._pending_expr[...] lookup and registration not found", "Scheduler._evaluate_apply")
+    for i6, n in enumerate(subs):
+        r6.check(
+            src(n.slice) == pvar,
+            f"{m.rel}:Scheduler._evaluate_apply:_pending_expr[{src(n.slice)}]#{i6}",
+            f"pending expressions are keyed by `{src(n.slice)}` instead of the parent object `{pvar}`: when the parent is a JobEnv (the environment under which a call's default "
+            "arguments are evaluated with the callee's context) unwrapping or replacing it merges equal default expressions of calls that run under different contexts",
+            m.rel,
+            n.lineno,
+        )
 
 
 def _vars_assigned_from(fn, text):
